@@ -4726,9 +4726,18 @@ class Entity(object, metaclass=EntityMeta):
             OrmError, '%s object %s has to be stored in DB before it can be pickled'
                       % (obj._status_.capitalize(), safe_repr(obj)))
         d = {'__class__' : obj.__class__}
+        state = {}
         for attr, val in obj._vals_.items():
-            if not attr.is_collection: d[attr.name] = val
-        return unpickle_entity, (d,)
+            if attr.is_collection: pass
+            elif attr.pk_offset is not None: d[attr.name] = val
+            else: state[attr.name] = val
+        # non-key values travel as pickle *state*: the object is memoised before they are pickled,
+        # so cycles of to-one references (e.g. both sides of a one-to-one) do not recurse forever
+        return unpickle_entity, (d,), state
+    def __setstate__(obj, state):
+        if obj._status_ in del_statuses or not state: return
+        adict = obj._adict_
+        obj._db_set_({adict[name]: val for name, val in state.items()}, unpickling=True)
     @cut_traceback
     def __init__(obj, *args, **kwargs):
         obj._status_ = None
